@@ -263,11 +263,16 @@ class C08:
             results.append(val)
         counters, viol = {}, []
         base = results[0]
-        if "raw" not in base and case.get("dangling"):
+        has_link = case.get("dangling") or any(len(l) > 2 for l in tree.get("links", ()))
+        if "raw" not in base and has_link:
+            # a payload holding a symbolic link (dangling, or a second name for one of its directories / files) may be
+            # refused - by every variant alike
             ok = [v["kind"] for v, r in zip(variants, results) if "raw" in r]
             if ok:
                 viol.append(oracles.V("outcome-differs", base_error=base["exc"], variants_that_succeeded=ok[:8]))
-            return {"violations": viol, "counters": {"dangling_link_cases": 1, "dangling_refused_by_every_variant": int(not ok)},
+            return {"violations": viol, "counters": {"dangling_link_cases": int(bool(case.get("dangling"))),
+                                                     "cases_with_symlink_alias_in_payload": int(not case.get("dangling")),
+                                                     "dangling_refused_by_every_variant": int(not ok)},
                     "nontrivial": True, "sig": ["dangling", case["route"], tree["layout"]],
                     "sample": {"route": case["route"], "base_error": base["exc"], "variants": len(variants)}}
         if "raw" not in base:
